@@ -1,5 +1,26 @@
 """pyxel/data_structure/charge.py + pyxel/detectors/geometry.py -> Gen_C14.v
 
+NORMALISATIONS applied before any shape is matched (translator/c14_norm.py; general, never keyed on a text):
+  * the straight-line functions (convert_df_to_array, convert_array_to_df, the two geometry functions, the njit
+    kernel's prelude and loop body) are read SYMBOLICALLY, statement by statement: a name stands for the expression
+    it was last assigned, expanded at the time of the assignment (so aliases `geo = self._geo`, named intermediate
+    results, renamed / reassigned locals, `x += e`, tuple unpacking of tuple literals, annotations, docstrings,
+    comments, logging calls all disappear; an alias taken BEFORE a reassignment keeps the old value); in-place update
+    of a local that has an alias fails closed
+  * a name assigned exactly once at module level to a literal is replaced by the literal
+  * a call of a helper defined in the same module / class (`h(..)`, `self.h(..)`, `Charge.h(..)`, `cls.h(..)`,
+    static / class / instance method) whose body is itself straight-line is replaced by its returned expression with
+    parameters bound to the arguments (positional / keyword / literal defaults); other calls are left for the matcher
+  * the mask recognises "the first / second index array" by what it COMPUTES (it translates to the same integral
+    Gallina expression), not by its name, so it may be built before the `.astype(int)`, in named pieces, by a helper
+  * the kernel: `enumerate`, `range(len(V))`, `range(0, len(V), 1)`, `range(V.size)`, `range(V.shape[0])`, manual
+    counter (`i = 0` before, `i += 1` last), loop-local names, aliases of the parameters; or no kernel at all:
+    `np.add.at(array, (I, J), V)` on the local zeros array
+  * the geometry helpers are recognised by what they are IMPORTED from, and may be given positional arguments
+  * object identity: private helper methods called as statements are read as part of their caller; the result of a
+    private helper (method / module function) is classified by its own `return`s (a returned parameter stands for the
+    argument); in-place accumulation into a local alias of `self._array` counts as accumulation into `self._array`
+
 Extracted (fail closed on any other shape):
   * Charge.convert_df_to_array
       - the inner njit loop: `for i, v in enumerate(VALS): ARR[A[i], B[i]] += v` (or `for i in range(len(VALS))`),
@@ -404,27 +425,55 @@ def _charge_sym(tree) -> Sym:
     return Sym(tree, cands[0], keep=KEEP_CALLS)
 
 
+ADD_AT = "__c14_add_at__"
+
+
 def _df_to_array(tree) -> dict:
     fn = find_func(tree, "convert_df_to_array", "Charge")
     inner = [st for st in body_no_doc(fn) if isinstance(st, ast.FunctionDef)]
-    if len(inner) != 1:
+    if len(inner) > 1:
         fail(fn, "convert_df_to_array must define ONE loop function and return its result")
-    inner = inner[0]
+    inner = inner[0] if inner else None
     sym = _charge_sym(tree)
-    sym.keep.add(inner.name)
+    if inner is not None:
+        sym.keep.add(inner.name)
     env: dict[str, ast.AST] = {}
+
+    def on_expr(st, env, aliases):
+        """`np.add.at(x, (I, J), V)` with x a local array nobody else refers to: the unbuffered in-place
+        `x[I[k], J[k]] += V[k]` for k = 0, 1, ... -- the loop, written as one numpy call"""
+        c = st.value
+        if not (isinstance(c, ast.Call) and ast.unparse(c.func) in ("np.add.at", "numpy.add.at") and not c.keywords
+                and len(c.args) == 3 and isinstance(c.args[0], ast.Name) and c.args[0].id in env):
+            return False
+        x = c.args[0].id
+        if aliases.get(x):
+            fail(st, f"np.add.at on {x}, which has an alias")
+        env[x] = ast.Call(func=ast.Name(id=ADD_AT, ctx=ast.Load()),
+                          args=[env[x], sym.expand(c.args[1], env), sym.expand(c.args[2], env)], keywords=[])
+        return True
+
     # straight-line code read symbolically: aliases, named intermediate results and same-module helpers disappear
-    call = sym.run(body_no_doc(fn), env, where="convert_df_to_array", skip=(ast.FunctionDef,))
+    call = sym.run(body_no_doc(fn), env, where="convert_df_to_array", skip=(ast.FunctionDef,), on_expr=on_expr)
     if call is None:
-        fail(fn, "convert_df_to_array must define the loop function and return its result")
-    if inner.name in env:
+        fail(fn, "convert_df_to_array must return the accumulated array")
+    if inner is not None and inner.name in env:
         fail(fn, f"{inner.name} is rebound")
-    params, arr, first, second, vals, acc = _loop(inner)
-    if not (isinstance(call, ast.Call) and isinstance(call.func, ast.Name) and call.func.id == inner.name):
-        fail(call, "convert_df_to_array must return the call of its loop function")
-    bound = _args(call, params)
-    if set(bound) != set(params):
-        fail(call, "every parameter of the loop function must be given")
+    if isinstance(call, ast.Call) and isinstance(call.func, ast.Name) and call.func.id == ADD_AT:
+        idx = call.args[1]
+        if not (isinstance(idx, ast.Tuple) and len(idx.elts) == 2):
+            fail(call, "np.add.at must be given the pair (first subscripts, second subscripts)")
+        arr, first, second, vals, acc = "array", "first", "second", "vals", True
+        bound = {arr: call.args[0], first: idx.elts[0], second: idx.elts[1], vals: call.args[2]}
+    else:
+        if inner is None:
+            fail(fn, "convert_df_to_array must define the loop function and return its result")
+        params, arr, first, second, vals, acc = _loop(inner)
+        if not (isinstance(call, ast.Call) and isinstance(call.func, ast.Name) and call.func.id == inner.name):
+            fail(call, "convert_df_to_array must return the call of its loop function")
+        bound = _args(call, params)
+        if set(bound) != set(params):
+            fail(call, "every parameter of the loop function must be given")
 
     # the array: zeros of shape (row, col)
     a = bound[arr]
